@@ -915,6 +915,27 @@ def _():
     rows.sort()
     return G.emit_strings('o_vq_codebook_calls', [r for _, r in rows], 'VectorQuantize.forward: result bindings of every self._codebook(...) call, in source order')
 
+# the branch a residual stack takes for a DROPPED layer (quantize dropout): every statement of it and every name it reads.  A dropped layer is not run,
+# so the branch must not mention the layer, its codebook or anything derived from them (Model/DropIndep.v; seed C12-j added `vq.codebook.sum() * 0.`)
+@item('o_dropped_branch')
+def _():
+    rows = []
+    for fname, qual, tag in ((RVQ, 'ResidualVQ.forward', 'rvq'), (RFSQ, 'ResidualFSQ.forward', 'rfsq'), (RLFQ, 'ResidualLFQ.forward', 'rlfq'), (RSVQ, 'ResidualSimVQ.forward', 'rsvq')):
+        func = find_func(fname, qual)
+        found = [n for n in ast.walk(func) if isinstance(n, ast.If) and 'should_quantize_dropout' in ast.unparse(n.test) and 'rand_quantize_dropout_index' in ast.unparse(n.test)]
+        if len(found) != 1:
+            raise GenError(f'{qual}: expected exactly one dropped-layer branch, found {len(found)}')
+        br = found[0]
+        if br.orelse:
+            raise GenError(f'{qual}: the dropped-layer branch has an else part')
+        rows.append(f'{tag}.test:' + ast.unparse(br.test))
+        for st in br.body:
+            rows.append(f'{tag}.stmt:' + ast.unparse(st).replace('\n', ' '))
+        names = sorted({n.id for st in br.body for n in ast.walk(st) if isinstance(n, ast.Name)})
+        rows.append(f'{tag}.names:' + ' '.join(names))
+        rows.append(f'{tag}.last:' + type(br.body[-1]).__name__)
+    return G.emit_strings('o_dropped_branch', rows, 'residual stacks: the branch taken for a dropped layer (statements, names read, last statement)')
+
 
 # einops patterns (G3)
 for name, fname, qual in (('pat_vq_forward', VQ, 'VectorQuantize.forward'), ('pat_vq_split', VQ, 'VectorQuantize.maybe_split_heads_from_input'),
